@@ -90,6 +90,15 @@ func parseExecCase(op string) (*execCase, bool) {
 	return c, true
 }
 
+func (c *execCase) hasDup() bool {
+	for _, k := range c.faults {
+		if strings.HasPrefix(k, "dup") {
+			return true
+		}
+	}
+	return false
+}
+
 func (c *execCase) source(f string) string {
 	var b strings.Builder
 	b.WriteString("syntax = \"proto3\";\n")
@@ -98,6 +107,14 @@ func (c *execCase) source(f string) string {
 	}
 	if c.faults[f] == "syntaxerr" {
 		b.WriteString("message { \n")
+	}
+	if k := c.faults[f]; strings.HasPrefix(k, "dup") {
+		// two unrelated files with the same dup group define the same symbol; filler messages make the
+		// linker's check pass long enough for concurrent tasks to overlap
+		fmt.Fprintf(&b, "message Shared_%s {}\n", k)
+		for j := 0; j < 1500; j++ {
+			fmt.Fprintf(&b, "message Fill_%s_%d {}\n", f, j)
+		}
 	}
 	fmt.Fprintf(&b, "message M_%s {\n", f)
 	i := 1
@@ -335,6 +352,8 @@ func (execEngine) Exec(op string) string {
 	det := fmt.Sprintf("%s has=%s", status, has.String())
 	if c.cancel >= 0 {
 		det = "nondet"
+	} else if c.hasDup() {
+		det = status // which of the colliding files fails depends on the schedule
 	}
 	extra := fmt.Sprintf("status=%s has=%s class=%s leak=%d reported=%d maxrep=%d", status, has.String(), errClass(o.err), leak, nReported, maxRep)
 	return det + " ~ " + extra + " trace=" + strings.Join(tl.snapshot(), ";")
@@ -444,6 +463,26 @@ func (execEngine) Gen(r *Rand, tier string) [][]string {
 						req = "a,d"
 					}
 					add(fmt.Sprintf("compile par=%d req=%s sched=%d graph=%s faults=- cancel=%d", par, req, r.Intn(100000), g, k))
+				}
+			}
+		}
+	}
+	// (1c) symbol collisions between unrelated files of one package: must be reported at every
+	// parallelism, request order and schedule (C05/C16)
+	dreps := 3
+	if tier == "thorough" {
+		dreps = 40
+	}
+	for _, g := range []string{"a:;b:", "a:c;b:d;c:;d:", "a:b,c;b:;c:"} {
+		for _, par := range []int{1, 2, 4, 16} {
+			for i := 0; i < dreps; i++ {
+				for _, req := range []string{"a,b", "b,a"} {
+					fl := "a=dup1;b=dup1"
+					if g == "a:b,c;b:;c:" {
+						fl = "b=dup1;c=dup1"
+						req = "a"
+					}
+					add(fmt.Sprintf("compile par=%d req=%s sched=%d graph=%s faults=%s", par, req, r.Intn(100000), g, fl))
 				}
 			}
 		}
